@@ -261,6 +261,25 @@ def install_pins():
 
     pack_repo.RepositoryPackCollection.plan_autopack_combinations = plan_autopack_combinations
 
+    # knitpack_repo sorts (index, key, value[, refs]) node tuples; index objects compare
+    # by address, so the order in which source packs are read (and hence the name of the
+    # pack written) would depend on the heap layout.  Shadow `sorted` in that module only:
+    # same sort, index objects ordered by the file name they were opened with.
+    import builtins
+
+    from breezy.bzr import knitpack_repo
+
+    def det_sorted(iterable, *args, **kwargs):
+        items = list(iterable)
+        if args or kwargs or not items:
+            return builtins.sorted(items, *args, **kwargs)
+        first = items[0]
+        if isinstance(first, tuple) and first and hasattr(first[0], "_name") and hasattr(first[0], "iter_all_entries"):
+            return builtins.sorted(items, key=lambda n: (n[0]._name,) + tuple(n[1:3]))
+        return builtins.sorted(items)
+
+    knitpack_repo.sorted = det_sorted
+
 
 def fmt_obj(fmt):
     from breezy import controldir
